@@ -53,7 +53,7 @@ ensures
     r as int == dimension as int + 3 + spec_npo2(dimension as int + 1),
 ''', before=[('dimension + 3', 'lemma_npo2_bounds(dimension as int + 1);')])
     u.item('src/vdaf/prio3.rs', ['fn check_num_aggregators'], ret='r',
-           rewrites=[(r'format!\((?:[^()]|\([^()]*\))*\)', 'fmt_opaque()', 2)],
+           rewrites=[(r'format!\((?:[^()]|\([^()]*\))*\)', 'fmt_opaque()', '*')],
            sig='''
 ensures
     r is Ok <==> 1 <= num_aggregators <= 254,
